@@ -13,6 +13,7 @@ fn registry() -> Vec<(&'static str, MainFn, ReplayFn)> {
         ("C13", props::c13::main as MainFn, props::c13::replay as ReplayFn),
         ("C20", props::c20::main as MainFn, props::c20::replay as ReplayFn),
         ("C12", props::c12::main as MainFn, props::c12::replay as ReplayFn),
+        ("C17", props::c17::main as MainFn, props::c17::replay as ReplayFn),
         ("C19", props::c19::main as MainFn, props::c19::replay as ReplayFn),
         ("C16", props::c16::main as MainFn, props::c16::replay as ReplayFn),
         ("C14", props::c14::main as MainFn, props::c14::replay as ReplayFn),
